@@ -44,14 +44,16 @@ FullArgs(e, c) == IF e.bound THEN <<Self>> \o ArgsOf(c) ELSE ArgsOf(c)
 Shape(c) == [np |-> c.np, kw |-> Rng(c.kw)]
 FullShape(e, c) == [np |-> c.np + (IF e.bound THEN 1 ELSE 0), kw |-> Rng(c.kw)]
 
-(* the full advertised list behind what a route shows: for a bound method the first parameter (the instance) is not shown *)
-Fulls(e, shown) == IF ~e.bound THEN {shown}
-                   ELSE {<<q>> \o shown : q \in {e.base[1], [e.base[1] EXCEPT !.k = "po"]}}
+(* A method is decorated on its def (with the instance parameter first) and called bound.  Binding re-creates the translator around  *)
+(* the bound method: the contract is stated at the BOUND level -- the def without its first parameter, the selection without it.     *)
+BaseB(e) == IF e.bound THEN DropFirst(e.base) ELSE e.base
+SelB(e, sel) == IF e.bound THEN [po |-> sel.po \ {e.base[1].n}, kwo |-> sel.kwo \ {e.base[1].n}] ELSE [po |-> sel.po, kwo |-> sel.kwo]
 
 CallV(e, sel, adv, c) ==
-  LET shape == FullShape(e, c)
-      want == Bind(adv, FullArgs(e, c), KwOf(Shape(c)))
-      model == ModelCall(e.base, Prepare(e.base, sel.po, sel.kwo), FullArgs(e, c), KwOf(Shape(c)))
+  LET shape == Shape(c)
+      sb == SelB(e, sel)
+      want == Bind(adv, ArgsOf(shape), KwOf(shape))
+      model == ModelCall(BaseB(e), Prepare(BaseB(e), sb.po, sb.kwo), ArgsOf(shape), KwOf(shape))
   IN IF Excluded(adv, shape) THEN {}
      ELSE Clause(want.ok /\ ~c.ok, "C12_AcceptedCallRejected")
      \cup Clause(~want.ok /\ c.ok, "C12_RejectedCallAccepted")
@@ -63,22 +65,24 @@ ModifV(e) ==
   LET base == e.base
       sel == SelOf(e)
       adm == StepsAdmissible(e, sel)
+      sb == SelB(e, sel)
       shown == {e.adv[x].ps : x \in {y \in DOMAIN e.adv : e.adv[y].tag = "sig"}}
-      good == {full \in UNION {Fulls(e, a) : a \in shown} : IsRewrite(base, sel.po, sel.kwo, full)}
+      good == {a \in shown : IsRewrite(BaseB(e), sb.po, sb.kwo, a)}
       shapes == {Shape(e.calls[i]) : i \in DOMAIN e.calls}
-      expectShapes == [np : 0..(Len(Posi(base)) + 1 - (IF e.bound THEN 1 ELSE 0)),
-                       kw : SUBSET ((AllNames(base) \ (IF e.bound THEN {"self"} ELSE {})) \cup {Foreign})]
+      expectShapes == [np : 0..(Len(Posi(BaseB(e))) + 1), kw : SUBSET (AllNames(BaseB(e)) \cup {Foreign})]
+      prep == Prepare(BaseB(e), sb.po, sb.kwo)
   IN
   IF e.decorated # "ok" THEN
        Clause(e.decorated # "ValueError", "C12_DecorationRaisesOtherThanValueError")
        \cup Clause(adm, "C12_AdmissibleSelectionRejected")
   ELSE IF ~adm THEN {"C12_InadmissibleSelectionAccepted"}
-  ELSE Clause(\E x \in DOMAIN e.adv : e.adv[x].tag # "sig", "C12_RetrievalRaised")
+  ELSE Clause(e.bindexc # "", "C12_BindingRaised")
+       \cup Clause(\E x \in DOMAIN e.adv : e.adv[x].tag # "sig", "C12_RetrievalRaised")
        \cup Clause(Cardinality(shown) > 1, "C12_RoutesDisagree")
        \cup Clause(shown # {} /\ good = {}, "C12_AdvertisedIsNotTheRewrite")
-       \cup Clause(shapes # expectShapes, "HARNESS_CallSetIncomplete")
+       \cup Clause(e.bindexc = "" /\ shapes # expectShapes, "HARNESS_CallSetIncomplete")
        \cup (IF good = {} THEN {} ELSE LET adv == CHOOSE g \in good : TRUE IN UNION {CallV(e, sel, adv, e.calls[i]) : i \in DOMAIN e.calls})
-       \cup Clause(Prepare(base, sel.po, sel.kwo).tag # "ok" \/ (good # {} /\ Prepare(base, sel.po, sel.kwo).adv \notin good), "DRIFT_PrepareModel")
+       \cup Clause(prep.tag # "ok" \/ (good # {} /\ prep.adv \notin good), "DRIFT_PrepareModel")
 
 Init == l = 1
 Next == /\ l <= Len(TraceLog)
